@@ -1,11 +1,378 @@
 /-
-  C05 — OBJ write/read round trip.  Theorems about `PolyVerif.Model.Obj`.
+  C05 — OBJ write/read round trip.  Theorems about `PolyVerif.Model.Obj` (model of
+  /repo/formats/obj writer.go / reader.go, tied text-exactly by the `c05` correspondence stream).
+  Helper lemmas are named `*_aux`.
 -/
 import PolyVerif.Model.Obj
+
+set_option linter.unusedSimpArgs false
+set_option linter.unusedSectionVars false
 
 namespace PolyVerif
 namespace C05
 open Obj
+
+section reader
+variable {τ α : Type} [DecidableEq τ] (pc : τ → Except Err Corner)
+
+def matSum (mats : List (String × Nat)) : Nat := (mats.map (·.2)).sum
+
+theorem matSum_append_aux (a b : List (String × Nat)) : matSum (a ++ b) = matSum a + matSum b := by
+  simp [matSum]
+
+theorem setLast_concat_aux (init : List (String × Nat)) (m : String) (c n : Nat) :
+    setLast (init ++ [(m, c)]) n = init ++ [(m, n)] := by
+  simp [setLast]
+
+/-- `addCorner` touches only the vertex tables of the group -/
+theorem addCorner_frame_aux {s : RState τ α} {g g' : Group τ α} {t : τ} {p : Nat}
+    (h : addCorner pc s g t = .ok (p, g')) :
+    g'.tris = g.tris ∧ g'.ftoks = g.ftoks ∧ g'.mats = g.mats ∧ g'.name = g.name := by
+  unfold addCorner at h
+  split at h
+  · cases h; simp
+  · split at h
+    · cases h
+    · split at h
+      · cases h
+      · split at h
+        · cases h
+        · split at h
+          · cases h
+          · split at h
+            · cases h
+            · cases h; simp
+
+/-- a group's material ranges account for each of its triangles exactly once (or it has no ranges) -/
+def GroupOK (g : Group τ α) : Prop :=
+  g.tris.length = g.ftoks.length ∧ (g.mats = [] ∨ matSum g.mats = g.tris.length)
+
+/-- the working group: closed ranges plus the open count cover the triangles read so far; the open range
+    still has count 0 -/
+def CurOK (s : RState τ α) : Prop :=
+  s.cur.tris.length = s.cur.ftoks.length ∧
+  ((s.cur.mats = [] ∧ s.since = s.cur.tris.length ∧ (s.cur.tris ≠ [] → s.inEffect = none)) ∨
+   (∃ init m, s.cur.mats = init ++ [(m, 0)] ∧ matSum init + s.since = s.cur.tris.length))
+
+def faceTotal (s : RState τ α) : Nat := (s.done.map (·.tris.length)).sum + s.cur.tris.length
+
+def Inv (s : RState τ α) : Prop := (∀ g ∈ s.done, GroupOK g) ∧ CurOK s
+
+def isFace : Line τ α → Bool
+  | .f _ _ _ => true
+  | _ => false
+
+theorem faceCount_cons_aux (l : Line τ α) (ls : List (Line τ α)) :
+    faceCount (l :: ls) = (if isFace l then 1 else 0) + faceCount ls := by
+  unfold faceCount
+  cases l <;> simp [isFace, List.filter_cons] <;> omega
+
+theorem faceCount_append_aux (a b : List (Line τ α)) : faceCount (a ++ b) = faceCount a + faceCount b := by
+  simp [faceCount, List.filter_append]
+
+/-- closing the open range of a working group in state `CurOK` gives a `GroupOK` group -/
+theorem close_ok_aux {s : RState τ α} (h : CurOK s) :
+    GroupOK { s.cur with mats := if s.since > 0 ∧ s.cur.mats ≠ [] then setLast s.cur.mats s.since else s.cur.mats } := by
+  obtain ⟨hl, h⟩ := h
+  refine ⟨hl, ?_⟩
+  rcases h with ⟨h0, _, _⟩ | ⟨init, m, hm, hs⟩
+  · left; simp [h0]
+  · right
+    by_cases hp : s.since > 0
+    · have : s.cur.mats ≠ [] := by rw [hm]; simp
+      simp only [hp, this, ne_eq, not_false_eq_true, and_self, ↓reduceIte, hm, setLast_concat_aux]
+      simp [matSum_append_aux, matSum]; simpa [matSum] using hs
+    · have h0 : s.since = 0 := by omega
+      simp only [hp, false_and, ↓reduceIte, hm]
+      simp [matSum_append_aux, matSum]; simpa [matSum, h0] using hs
+
+theorem step_inv_aux {s s' : RState τ α} {l : Line τ α} (hi : Inv s) (h : step pc s l = .ok s') :
+    Inv s' ∧ faceTotal s' = faceTotal s + (if isFace l then 1 else 0) := by
+  obtain ⟨hd, hc⟩ := hi
+  cases l with
+  | other t => simp only [step, Except.ok.injEq] at h; subst h; exact ⟨⟨hd, hc⟩, by simp [isFace]⟩
+  | bad e => simp [step] at h
+  | mtllib fs =>
+    simp only [step] at h
+    split at h
+    · cases h
+    · cases h; exact ⟨⟨hd, hc⟩, by simp [isFace, faceTotal]⟩
+  | v p => simp only [step, Except.ok.injEq] at h; subst h; exact ⟨⟨hd, hc⟩, by simp [isFace, faceTotal]⟩
+  | vn p => simp only [step, Except.ok.injEq] at h; subst h; exact ⟨⟨hd, hc⟩, by simp [isFace, faceTotal]⟩
+  | vt p => simp only [step, Except.ok.injEq] at h; subst h; exact ⟨⟨hd, hc⟩, by simp [isFace, faceTotal]⟩
+  | usemtl name =>
+    simp only [step] at h
+    split at h
+    · cases h
+    · cases h
+      refine ⟨⟨hd, ?_⟩, by simp [isFace, faceTotal]⟩
+      obtain ⟨hl, hc⟩ := hc
+      refine ⟨hl, Or.inr ?_⟩
+      rcases hc with ⟨h0, hs, _⟩ | ⟨init, m, hm, hs⟩
+      · by_cases hp : s.since > 0
+        · exact ⟨[("Default", s.since)], name, by simp [hp, h0], by simp [matSum, hs]⟩
+        · exact ⟨[], name, by simp [hp, h0], by simp [matSum]; omega⟩
+      · by_cases hp : s.since > 0
+        · have hne : s.cur.mats ≠ [] := by rw [hm]; simp
+          refine ⟨init ++ [(m, s.since)], name, ?_, ?_⟩
+          · simp [hp, hm, setLast_concat_aux]
+          · simp [matSum_append_aux, matSum]; simpa [matSum] using hs
+        · have h0 : s.since = 0 := by omega
+          refine ⟨init ++ [(m, 0)], name, by simp [hp, hm], ?_⟩
+          simp [matSum_append_aux, matSum]; simpa [matSum, h0] using hs
+  | g name =>
+    simp only [step] at h
+    split at h
+    · cases h
+      refine ⟨⟨?_, ?_⟩, ?_⟩
+      · intro g hg
+        rcases List.mem_append.1 hg with hg | hg
+        · exact hd g hg
+        · simp only [List.mem_singleton] at hg; subst hg; exact close_ok_aux ⟨hc.1, hc.2⟩
+      · exact ⟨rfl, Or.inl ⟨rfl, rfl, by simp⟩⟩
+      · simp [isFace, faceTotal]
+    · cases h
+      refine ⟨⟨hd, ?_⟩, by simp [isFace, faceTotal]⟩
+      exact hc
+  | f a b c =>
+    simp only [step] at h
+    split at h
+    · cases h
+    · rename_i p1 g1 e1
+      split at h
+      · cases h
+      · rename_i p2 g2 e2
+        split at h
+        · cases h
+        · rename_i p3 g3 e3
+          cases h
+          obtain ⟨t1, f1, m1, _⟩ := addCorner_frame_aux pc e1
+          obtain ⟨t2, f2, m2, _⟩ := addCorner_frame_aux pc e2
+          obtain ⟨t3, f3, m3, _⟩ := addCorner_frame_aux pc e3
+          simp only at t1 f1 m1
+          have ht : g3.tris = s.cur.tris := by rw [t3, t2, t1]
+          have hf : g3.ftoks = s.cur.ftoks := by rw [f3, f2, f1]
+          have hm := m3.trans (m2.trans m1)
+          refine ⟨⟨hd, ?_⟩, ?_⟩
+          · obtain ⟨hl, hc⟩ := hc
+            refine ⟨by simp [ht, hf, hl], ?_⟩
+            simp only [ht, hm, List.length_append, List.length_singleton]
+            rcases hc with ⟨h0, hs, hie⟩ | ⟨init, m, hmm, hs⟩
+            · cases hin : s.inEffect with
+              | none => left; simp [h0, hs]
+              | some m =>
+                right
+                have : s.cur.tris = [] := by
+                  by_cases ht0 : s.cur.tris = []
+                  · exact ht0
+                  · have := hie ht0; rw [hin] at this; cases this
+                refine ⟨[], m, by simp [h0], ?_⟩
+                simp [matSum, hs, this]
+            · right
+              have hne : s.cur.mats ≠ [] := by rw [hmm]; simp
+              exact ⟨init, m, by simp [hne, hmm], by omega⟩
+          · simp [isFace, faceTotal, ht]; omega
+
+theorem steps_inv_aux : ∀ (ls : List (Line τ α)) {s s' : RState τ α}, Inv s → steps pc s ls = .ok s' →
+    Inv s' ∧ faceTotal s' = faceTotal s + faceCount ls
+  | [], s, s', hi, h => by simp only [steps, Except.ok.injEq] at h; subst h; exact ⟨hi, by simp [faceCount]⟩
+  | l :: ls, s, s', hi, h => by
+    simp only [steps] at h
+    split at h
+    · cases h
+    · rename_i s1 e1
+      obtain ⟨hi1, hf1⟩ := step_inv_aux pc hi e1
+      obtain ⟨hi2, hf2⟩ := steps_inv_aux ls hi1 h
+      exact ⟨hi2, by rw [hf2, hf1, faceCount_cons_aux]; omega⟩
+
+theorem inv_init_aux : Inv ({} : RState τ α) :=
+  ⟨(by intro g hg; cases hg), rfl, Or.inl ⟨rfl, rfl, by simp⟩⟩
+
+/-- **Material ranges cover the triangles.**  For every input the reader accepts — any arrangement of
+    `v/vt/vn/f/g/usemtl/mtllib`/comment lines, any corner tokens — every group it returns has either no
+    material ranges or ranges whose counts sum to exactly the group's triangle count, and the groups
+    together hold exactly the `f` lines of the input (none lost, none invented). -/
+theorem readObj_ranges_sum {ls : List (Line τ α)} {gs : List (Group τ α)} {libs : List String}
+    (h : readObj pc ls = .ok (gs, libs)) :
+    (∀ g ∈ gs, g.tris.length = g.ftoks.length ∧ (g.mats = [] ∨ matSum g.mats = g.tris.length)) ∧
+    (gs.map (·.tris.length)).sum = faceCount ls := by
+  unfold readObj at h
+  split at h
+  · cases h
+  · rename_i s e
+    simp only [finish, Except.ok.injEq, Prod.mk.injEq] at h
+    obtain ⟨rfl, rfl⟩ := h
+    obtain ⟨⟨hd, hc⟩, hf⟩ := steps_inv_aux pc ls inv_init_aux e
+    constructor
+    · intro g hg
+      rcases List.mem_append.1 hg with hg | hg
+      · exact hd g hg
+      · simp only [List.mem_singleton] at hg; subst hg; exact close_ok_aux hc
+    · simp [faceTotal] at hf
+      simp [hf]
+
+end reader
+
+/-! ### the writer on what the reader returns -/
+
+section resave
+variable {τ α : Type}
+
+theorem flatTris_append_aux : ∀ (a b : List (Nat × Nat × Nat)), flatTris (a ++ b) = flatTris a ++ flatTris b
+  | [], _ => rfl
+  | (x, y, z) :: a, b => by simp [flatTris, flatTris_append_aux a b]
+
+theorem flatTris_length_aux : ∀ ts : List (Nat × Nat × Nat), (flatTris ts).length = 3 * ts.length
+  | [] => rfl
+  | (_, _, _) :: ts => by simp [flatTris, flatTris_length_aux ts]; omega
+
+/-- the face lines for a list of index triples -/
+def faceLines (mk : Nat → Corner) (ts : List (Nat × Nat × Nat)) : List (Line Corner α) :=
+  ts.map fun t => .f (mk t.1) (mk t.2.1) (mk t.2.2)
+
+theorem faceCount_faceLines_aux (mk : Nat → Corner) (ts : List (Nat × Nat × Nat)) :
+    faceCount (faceLines (α := α) mk ts) = ts.length := by
+  induction ts with
+  | nil => rfl
+  | cons t ts ih => rw [faceLines, List.map_cons, faceCount_cons_aux]; simp [isFace]; rw [← faceLines, ih]; omega
+
+/-- the face cursor consumes exactly `n` triples when they are there -/
+theorem faceRun_flat_aux (mk : Nat → Corner) : ∀ (ts : List (Nat × Nat × Nat)) (rest : List Nat),
+    faceRun (α := α) mk ts.length (flatTris ts ++ rest) = .ok (faceLines mk ts, rest)
+  | [], rest => rfl
+  | (a, b, c) :: ts, rest => by
+    simp [flatTris, faceRun, faceRun_flat_aux mk ts rest, faceLines]
+
+theorem rangeRun_flat_aux (mk : Nat → Corner) : ∀ (mats : List (Option String × Nat)) (ts : List (Nat × Nat × Nat)),
+    (mats.map (·.2)).sum = ts.length →
+    ∃ ls, rangeRun (α := α) mk mats (flatTris ts) = .ok ls ∧ faceCount ls = ts.length
+  | [], ts, h => by
+    have : ts = [] := List.eq_nil_of_length_eq_zero (by simpa using h.symm)
+    subst this; exact ⟨[], rfl, rfl⟩
+  | (m, n) :: ms, ts, h => by
+    simp only [List.map_cons, List.sum_cons] at h
+    have hn : (ts.take n).length = n := by simp [List.length_take]; omega
+    have hsplit : flatTris ts = flatTris (ts.take n) ++ flatTris (ts.drop n) := by
+      rw [← flatTris_append_aux, List.take_append_drop]
+    have hrun := faceRun_flat_aux (α := α) mk (ts.take n) (flatTris (ts.drop n))
+    rw [hn] at hrun
+    obtain ⟨ls', hr, hc⟩ := rangeRun_flat_aux mk ms (ts.drop n) (by simp [List.length_drop]; omega)
+    refine ⟨.usemtl (matName m) :: faceLines mk (ts.take n) ++ ls', ?_, ?_⟩
+    · simp [rangeRun, hsplit, hrun, hr]
+    · rw [List.cons_append, faceCount_cons_aux, faceCount_append_aux, faceCount_faceLines_aux, hc, hn]
+      simp [isFace, List.length_drop]; omega
+
+theorem writeGroup_ok_aux (multi : Bool) (vo to no : Nat) (g : Group τ α)
+    (hg : g.mats = [] ∨ matSum g.mats = g.tris.length) :
+    ∃ ls, writeGroup multi vo to no (toMesh g).1 (toMesh g).2 = .ok ls ∧ faceCount ls = g.tris.length := by
+  have hhdr : ∀ (h : List (Line Corner α)), (h = [] ∨ ∃ n, h = [.g n]) → faceCount h = 0 := by
+    intro h hh; rcases hh with rfl | ⟨n, rfl⟩ <;> rfl
+  by_cases hm : g.mats = []
+  · have h1 := faceRun_flat_aux (α := α)
+      (mkCorner (toMesh g).2.uv.isSome (toMesh g).2.nrm.isSome vo to no) g.tris []
+    rw [List.append_nil] at h1
+    have h2 : ((flatTris g.tris).length + 2) / 3 = g.tris.length := by rw [flatTris_length_aux]; omega
+    refine ⟨(if (multi || decide (g.name ≠ "")) = true then [Line.g g.name] else []) ++
+      faceLines (mkCorner (toMesh g).2.uv.isSome (toMesh g).2.nrm.isSome vo to no) g.tris, ?_, ?_⟩
+    · simp only [writeGroup, toMesh, hm, List.map_nil, ↓reduceIte, h2]
+      simp only [toMesh] at h1
+      rw [h1]; rfl
+    · rw [faceCount_append_aux, faceCount_faceLines_aux]
+      have := hhdr (if (multi || decide (g.name ≠ "")) = true then [Line.g g.name] else [])
+        (by split <;> simp)
+      simp [toMesh] at this ⊢
+      omega
+  · have hs : matSum g.mats = g.tris.length := by rcases hg with h | h; exact absurd h hm; exact h
+    obtain ⟨ls, hr, hc⟩ := rangeRun_flat_aux (α := α)
+      (mkCorner (toMesh g).2.uv.isSome (toMesh g).2.nrm.isSome vo to no)
+      (g.mats.map fun (n, c) => (some n, c)) g.tris (by simpa [matSum, List.map_map, Function.comp_def] using hs)
+    have hne : (g.mats.map fun (p : String × Nat) => ((some p.1 : Option String), p.2)) ≠ [] := by simpa using hm
+    refine ⟨(if (multi || decide (g.name ≠ "")) = true then [Line.g g.name] else []) ++ ls, ?_, ?_⟩
+    · simp only [writeGroup, toMesh] at hr ⊢
+      simp only [hne, ↓reduceIte, hr]
+      try rfl
+    · rw [faceCount_append_aux, hc]
+      have := hhdr (if (multi || decide (g.name ≠ "")) = true then [Line.g g.name] else [])
+        (by split <;> simp)
+      simp [toMesh] at this ⊢
+      omega
+
+theorem writeGroups_ok_aux (multi : Bool) : ∀ (gs : List (Group τ α)) (vo to no : Nat),
+    (∀ g ∈ gs, g.mats = [] ∨ matSum g.mats = g.tris.length) →
+    ∃ ls, writeGroups multi vo to no (gs.map toMesh) = .ok ls ∧ faceCount ls = (gs.map (·.tris.length)).sum
+  | [], _, _, _, _ => ⟨[], rfl, rfl⟩
+  | g :: gs, vo, to, no, h => by
+    obtain ⟨a, ha, hca⟩ := writeGroup_ok_aux multi vo to no g (h g (by simp))
+    obtain ⟨b, hb, hcb⟩ := writeGroups_ok_aux multi gs (vo + optLen (toMesh g).2.pos) (to + optLen (toMesh g).2.uv)
+      (no + optLen (toMesh g).2.nrm) (fun g' hg' => h g' (by simp [hg']))
+    refine ⟨a ++ b, ?_, by rw [faceCount_append_aux, hca, hcb]; simp⟩
+    have e : toMesh g = ((toMesh g).1, (toMesh g).2) := rfl
+    rw [List.map_cons, e]
+    simp only [writeGroups, ha, hb]
+
+theorem faceCount_dataLines_aux : ∀ ms : List (String × Mesh α), faceCount (dataLines ms) = 0
+  | [] => rfl
+  | (_, m) :: ms => by
+    have hv : ∀ l : List (V3 α), faceCount (l.map (Line.v (τ := Corner))) = 0 := by
+      intro l; induction l with
+      | nil => rfl
+      | cons a l ih => rw [List.map_cons, faceCount_cons_aux, ih]; rfl
+    have hn : ∀ l : List (V3 α), faceCount (l.map (Line.vn (τ := Corner))) = 0 := by
+      intro l; induction l with
+      | nil => rfl
+      | cons a l ih => rw [List.map_cons, faceCount_cons_aux, ih]; rfl
+    have ht : ∀ l : List (V2 α), faceCount (l.map (Line.vt (τ := Corner))) = 0 := by
+      intro l; induction l with
+      | nil => rfl
+      | cons a l ih => rw [List.map_cons, faceCount_cons_aux, ih]; rfl
+    simp [dataLines, meshData, faceCount_append_aux, hv, hn, ht, faceCount_dataLines_aux ms]
+
+theorem faceCount_header_aux (f : String) : faceCount (headerLines (α := α) f) = 0 := by
+  unfold headerLines; split <;> rfl
+
+/-- **Load → save keeps every face.**  For every input the reader accepts (any arrangement of `g`,
+    `usemtl`, data and face lines, any corner tokens, faces before any `g`, repeated or empty material
+    ranges, …), saving what was read succeeds (no panic) and the saved text has exactly as many `f`
+    lines as the input: no face lost, none invented. -/
+theorem obj_resave_faces [DecidableEq τ] (pc : τ → Except Err Corner) {ls : List (Line τ α)}
+    {gs : List (Group τ α)} {libs : List String} (h : readObj pc ls = .ok (gs, libs)) (matFile : String) :
+    ∃ out, writeObj matFile (gs.map toMesh) = .ok out ∧ faceCount out = faceCount ls := by
+  obtain ⟨hok, hsum⟩ := readObj_ranges_sum pc h
+  obtain ⟨body, hb, hc⟩ := writeGroups_ok_aux (decide ((gs.map toMesh).length > 1)) gs 0 0 0 (fun g hg => (hok g hg).2)
+  refine ⟨headerLines matFile ++ dataLines (gs.map toMesh) ++ body, by simp only [writeObj, hb], ?_⟩
+  rw [faceCount_append_aux, faceCount_append_aux, faceCount_header_aux, faceCount_dataLines_aux, hc, hsum]
+  omega
+
+end resave
+
+/-! ### the pinned defect: one shared offset for v / vt / vn -/
+
+section shared
+
+/-- write, then read the lines back (corner tokens are the corners themselves) -/
+def thenRead {α : Type} (w : Except Err (List (Line Corner α))) : Except Err (List (String × Mesh α) × List String) :=
+  match w with
+  | .error e => .error e
+  | .ok ls => match readObj (fun c => .ok c) ls with
+    | .error e => .error e
+    | .ok (gs, libs) => .ok (gs.map toMesh, libs)
+
+/-- a mesh without normals followed by a mesh with normals (one triangle each; payload `Nat`) -/
+def mixedWitness : List (String × Mesh Nat) :=
+  [("A", ⟨[0, 1, 2], some [⟨0, 0, 0⟩, ⟨1, 0, 0⟩, ⟨0, 1, 0⟩], none, none, []⟩),
+   ("B", ⟨[0, 2, 1], some [⟨5, 0, 0⟩, ⟨6, 0, 0⟩, ⟨5, 1, 0⟩], none, some [⟨7, 7, 1⟩, ⟨8, 8, 1⟩, ⟨9, 9, 1⟩], []⟩)]
+
+/-- **A single shared offset is wrong for mixed attribute sets** (the defect the tree was pinned with):
+    on `mixedWitness` the shared-offset writer emits `f 4//4 6//6 5//5` although only three `vn` lines
+    exist, and reading its output panics; the writer with separate offsets round-trips the same scene. -/
+theorem obj_shared_offset_breaks :
+    (match thenRead (writeObjShared "" mixedWitness) with | .error .panic => true | _ => false) = true ∧
+    (match thenRead (writeObj "" mixedWitness) with
+     | .ok (gs, _) => RoundTrips id mixedWitness gs
+     | .error _ => false) = true := by
+  constructor <;> decide
+
+end shared
 
 end C05
 end PolyVerif
